@@ -143,19 +143,13 @@ func matchProp(filter PropFilter, field *ical.Prop) (bool, error) {
 func matchCompTimeRange(start, end time.Time, comp *ical.Component) (bool, error) {
 	// See https://datatracker.ietf.org/doc/html/rfc4791#section-9.9
 
-	// evaluate recurring components
 	rset, err := comp.RecurrenceSet(start.Location())
 	if err != nil {
 		return false, err
 	}
-	if rset != nil {
-		// TODO we can only set inclusive to true or false, but really the
-		// start time is inclusive while the end time is not :/
-		return len(rset.Between(start, end, true)) > 0, nil
-	}
 
 	// TODO handle more than just events
-	if comp.Name != ical.CompEvent {
+	if rset == nil && comp.Name != ical.CompEvent {
 		return false, nil
 	}
 	event := ical.Event{comp}
@@ -172,20 +166,45 @@ func matchCompTimeRange(start, end time.Time, comp *ical.Component) (bool, error
 	if err != nil {
 		return false, err
 	}
+	hasEnd := event.Props.Get(ical.PropDateTimeEnd) != nil
 
+	if rset == nil {
+		return matchEventTimeRange(start, end, eventStart, eventEnd, hasEnd), nil
+	}
+
+	// A recurring component matches if one of its instances overlaps the
+	// range. Every instance lasts as long as the first one. They come in
+	// ascending order: none is left to look at once one starts at or after
+	// the end of the range.
+	duration := eventEnd.Sub(eventStart)
+	next := rset.Iterator()
+	for {
+		instance, ok := next()
+		if !ok || (!end.IsZero() && !instance.Before(end)) {
+			return false, nil
+		}
+		if matchEventTimeRange(start, end, instance, instance.Add(duration), hasEnd) {
+			return true, nil
+		}
+	}
+}
+
+// matchEventTimeRange reports whether an event, or one instance of a recurring
+// event, overlaps the time range. hasEnd tells that the event states a DTEND.
+func matchEventTimeRange(start, end, eventStart, eventEnd time.Time, hasEnd bool) bool {
 	// RFC 4791 section 9.9, conditions for VEVENT (a zero start or end
 	// leaves the range open at that side): in every row the range must end
 	// after DTSTART...
 	if !end.IsZero() && !eventStart.Before(end) {
-		return false, nil
+		return false
 	}
 	// ... and start before DTEND, DTSTART+DURATION (a positive duration) or
 	// DTSTART+P1D (an all-day start without end),
-	if eventEnd.After(eventStart) || event.Props.Get(ical.PropDateTimeEnd) != nil {
-		return start.IsZero() || start.Before(eventEnd), nil
+	if eventEnd.After(eventStart) || hasEnd {
+		return start.IsZero() || start.Before(eventEnd)
 	}
 	// or, for an event without extent, not after DTSTART.
-	return start.IsZero() || !start.After(eventStart), nil
+	return start.IsZero() || !start.After(eventStart)
 }
 
 func matchPropTimeRange(start, end time.Time, field *ical.Prop) (bool, error) {
